@@ -425,7 +425,39 @@ pub fn oracle(case: &Value, seen: &Seen, w: &WorldObs) -> Result<&'static str, (
     }
 }
 
+/// Both captured streams run over the limit, with multi-byte text straddling it: the reader that
+/// loses the race for the overflow flag returns a buffer cut inside a character (found by a
+/// thorough run: 1 in 3 million of the general scenarios, hence this biased template).
+fn gen_double_overflow(r: &mut Rng) -> Value {
+    let cap = r.pick(&[1u64, 2, 7, 8, 64, 100]);
+    let pipe_cap = r.pick(&[1u64, 7, 16, 4096]);
+    let mut script = vec![];
+    // stdout first gets close to the limit, stderr overflows, stdout overflows inside a character
+    let near = cap.saturating_sub(r.below(3));
+    let order = r.below(3);
+    let o1 = json!({"out": {"len": near, "kind": r.pick(&["ascii", "multi"]), "chunk": r.pick(&[1u64, 3, 64])}});
+    let e1 = json!({"err": {"len": cap + 1 + r.below(3), "kind": r.pick(&["ascii", "multi"]), "chunk": r.pick(&[1u64, 3, 64])}});
+    let o2 = json!({"out": {"len": 2 + r.below(6), "kind": "multi", "chunk": r.pick(&[1u64, 100_000])}});
+    match order {
+        0 => script.extend([o1, e1, o2]),
+        1 => script.extend([e1, o1, o2]),
+        _ => script.extend([o1, o2, e1]),
+    }
+    if r.chance(30) {
+        script.push(json!({"sleep": r.pick(&[0u64, 1, 10])}));
+    }
+    script.push(json!({"exit": 0}));
+    json!({
+        "out_pol": 2, "err_pol": 2, "stdin_pol": 1, "cap": cap, "timeout": r.pick(&[50u64, 100, 200]), "poll": r.pick(&[1u64, 10]),
+        "pipe_cap": pipe_cap, "epipe_die": r.chance(50), "stdin_len": 0, "script": script,
+        "faults": {}, "jitter_seed": r.next() >> 1, "mode": if r.below(8) == 0 { "direct" } else { "script" },
+    })
+}
+
 fn gen_scenario(r: &mut Rng, tier: Tier) -> Value {
+    if r.chance(6) {
+        return gen_double_overflow(r);
+    }
     let cap = r.pick(&[0u64, 1, 2, 7, 8, 64, 100, 8191, 8192, 8193, 20000]);
     let pipe_cap = r.pick(&[1u64, 7, 16, 4096, 65536]);
     let max_bytes: u64 = if pipe_cap <= 16 { 600 } else { 45_000 };
